@@ -254,7 +254,9 @@ file as it was (the dot-file is unlinked); the check-pointing of the other users
 def chkpntFault (s : St) (u : Nat) : St :=
   -- the fault is a single failing call: only the first time `u` comes up in the dirty list is lost
   let fs := ((chkpntUsers s).erase u).foldl (fun fs v => setFile fs v (tasksOf s v)) s.files
-  { s with files := fs, dirty := [] }
+  -- whoever's file could not be written stays on the list (the complete dump keeps the whole list)
+  let hit := (chkpntUsers s).contains u
+  { s with files := fs, dirty := if !hit then [] else if s.dirty.length ≥ 16 then s.dirty else [u] }
 
 /-- a new daemon on the spool: `echsd_inject_queues` → `_inject_task1(t, NOT_A_UID)` for every task of every file -/
 def reload (files : List (Nat × List DTask)) (me now : Nat) : St :=
